@@ -1616,6 +1616,14 @@ fn forward_device_data(
         len
     );
 
+    // update the state of shared subscription. The publishes are handed to this member
+    // whether or not its buffer is now full, so the group cursor must move in both cases
+    if let Some(share) = shared_group {
+        share.update_next_client();
+        // update the shared cursor
+        share.cursor = request.cursor;
+    }
+
     if len >= MAX_CHANNEL_CAPACITY - 1 {
         debug!("Outgoing channel reached its capacity");
         outgoing.push_notification(Notification::Unschedule);
@@ -1624,13 +1632,6 @@ fn forward_device_data(
     }
 
     outgoing.handle.try_send(()).ok();
-
-    // update the state of shared subscription
-    if let Some(share) = shared_group {
-        share.update_next_client();
-        // update the shared cursor
-        share.cursor = request.cursor;
-    }
 
     if caughtup {
         ConsumeStatus::FilterCaughtup
